@@ -29,7 +29,8 @@ var yamlSensitive = []string{"yes", "no", "on", "off", "y", "n", "~", "null", "N
 	"q\"uo'te", "'single'", "\"double\"", "#comment", "a #b", "k: v", "k:v", ": x", "- x", "? x", "|", ">", "|-", "%TAG", "@at", "`tick",
 	"!!str x", "&anchor", "*alias", "[a, b]", "{a: b}", "<<", "=", "a,b", "back\\slash", "é", "日本語", "😀 non-BMP", "\u2028", "\u2029",
 	" nbsp", "\ufeffbom", "very long " + string(make([]byte, 0)), "---", "...", "a: b: c", "", "0", "-1", "+1", "1.0", "0b101", "1:30",
-	"a\n\n", "a\n\n\n", "\n\n", "x \n\n", "a\nb\n\n", "a\n \n", "a\r\n\r\n", "trail\t\n", "\n"}
+	"a\n\n", "a\n\n\n", "\n\n", "x \n\n", "a\nb\n\n", "a\n \n", "a\r\n\r\n", "trail\t\n", "\n",
+	"$HOME", "${PATH}:/opt/lib", "$LD_LIBRARY_PATH:/x", "${ORIGIN}/../lib", "echo $1", "a$b$c", "$$", "$(id)", "`id`", "%s %d %%", "~root/x", "\\n", "{{.X}}", "<a&b>", "a;b|c>d"}
 
 func sensitiveSpec(rng *rand.Rand) *specs.Spec {
 	pick := func() string { return yamlSensitive[rng.Intn(len(yamlSensitive))] }
